@@ -77,6 +77,30 @@ def ast_literal(node):
         return None
 
 
+_RECHECK = {}
+
+
+def recheck(ex, mods, o, tier_opts):
+    """re-verify one (contract, case) alone with a 6x solver budget; True iff the obligation is discharged now"""
+    key = (o['contract'], o['case'])
+    if key not in _RECHECK:
+        try:
+            from pyvc.run import make_explorer
+            from pyvc.engine import _case_str
+            ex2 = make_explorer(mods, timeout_ms=6 * tier_opts.get('timeout_ms', 10000))
+            c = ex2.contracts[o['contract']]
+            info = ex2.index.find_function(c.target) if c.target else None
+            case = next((cs for cs in ex2.cases(c, info) if _case_str(cs) == o['case']), None)
+            _RECHECK[key] = ex2.verify(o['contract'], case) if case is not None else None
+        except Exception:
+            _RECHECK[key] = None
+    r = _RECHECK[key]
+    if not r or r.get('unsupported') or r.get('crashes'):
+        return False
+    ob = r['obligations'].get(o['name'])
+    return ob is not None and not ob['open']
+
+
 def safe_name(s):
     return re.sub(r'[^A-Za-z0-9_.-]+', '_', s)[:150]
 
@@ -142,6 +166,11 @@ def main(argv=None):
             print(f'no contracts for {prop}')
             return 3
         tier_opts = {'timeout_ms': 10000 if a.tier == 'quick' else 60000}
+        if a.update_baseline:
+            # the ledger only records what is discharged with a *third* of the normal solver budget, so that the
+            # normal run has a 3x margin (obligations that need more stay outside the ledger: if they do not
+            # discharge in a later run they are listed as undecided, never reported as violations)
+            tier_opts['timeout_ms'] = 3500
         os.environ['VERIF_TIER'] = a.tier
         sym_names = [n for n in names if not (a.tier == 'quick' and ex0.contracts[n].opts.get('symbolic_tier') == 'thorough')]
         reports, ex = run(mods, sym_names, procs=a.j, opts=tier_opts)
@@ -194,6 +223,7 @@ def main(argv=None):
 
     # ---- classify
     discharged, open_, violations, known_reported, undecided, bounded = [], [], [], [], [], []
+    rechecked = []
     soft = set()      # proved this run, but the contract allows a bounded fallback: not part of the hard ledger
     for full, o in sorted(obligations.items()):
         if not o['open']:
@@ -246,7 +276,14 @@ def main(argv=None):
                     violations.append({'obligation': full, 'replay': path, 'failed': rdoc.get('failed'),
                                        'inputs': rdoc.get('inputs'), 'outcome': rdoc.get('outcome'), 'result': rdoc.get('result')})
         elif full in ledger:
-            # discharged on the unchanged tree, not now, and no failing input found
+            # discharged on the unchanged tree, not now, and no failing input found.  Before this is reported,
+            # the (contract, case) is verified once more, alone and with a 6x solver budget: a verdict must not
+            # flip because all cores were busy.
+            if recheck(ex, mods, o, tier_opts):
+                discharged.append(full)
+                rechecked.append(full)
+                open_.remove(full)
+                continue
             path = os.path.join(rdir, safe_name(full) + '.noinput.json')
             with open(path, 'w') as f:
                 json.dump({'property': prop, 'obligation': full, 'note': 'obligation was discharged on the baseline tree and is not discharged now; no failing input found',
@@ -378,6 +415,7 @@ def main(argv=None):
             'obligations_total_generated': len(obligations),
             'path_queries': sum(o['paths'] for o in obligations.values()),
             'undischarged_not_in_baseline': undecided,
+            'discharged_on_recheck_with_6x_budget': rechecked,
             'bounded_standins': bounded + native_bounded,
             'missing_from_run': missing,
             'unsupported': unsupported, 'crashes': crashes,
